@@ -1,6 +1,6 @@
 (* the generated tables meet every table-condition Record of layer L2 *)
 From stdpp Require Import list numbers option.
-From L2 Require Import Model Base Own Jobs Wake WakeInv Term GenTables ZeroInv Facts.
+From L2 Require Import Model Base Own Jobs Wake WakeInv Term GenTables ZeroInv Facts Waiter.
 From Gen Require Import Tables.
 
 Lemma gen_own_cond : own_cond gen_ftables.
@@ -13,6 +13,7 @@ Proof.
   - intros st e st' act H. destruct st, e; inversion H; subst; cbn; intuition congruence.
   - intros f st st' act H. destruct st; cbn in H; try (inversion H; subst; cbn; intuition congruence).
     destruct (f0 =? f); inversion H; subst; cbn; intuition congruence.
+  - intros st st' H. destruct st; inversion H; subst; cbn; intuition congruence.
   - intros st st' H. destruct st; inversion H; subst; cbn; intuition congruence.
   - intros st Ho Hn. destruct st; cbn in *; try congruence; intuition congruence.
   - intros st e st' d Ho Hn H. destruct st, e; cbn in *; try congruence; inversion H; subst; cbn; intuition congruence.
@@ -77,3 +78,11 @@ Lemma runF_gen s tr : runF gen_ffacts gen_ftables s tr = run gen_ftables s tr.
 Proof. rewrite gen_ffacts_code. apply runF_code. Qed.
 Print Assumptions gen_ffacts_code.
 Print Assumptions runF_gen.
+
+(* claim_pending_queue (the waiter of sync_background): the conditions of Waiter.claim_cond; the row added by the repair of finding F6 *)
+Lemma cl_claim_row : forall f, gen_ftables.(ft_base).(t_claim) (WaitingForPoll f) = Some Running.
+Proof. reflexivity. Qed.
+Lemma gen_claim_cond : claim_cond gen_ftables.
+Proof. split; try reflexivity. intros st st' c H Hc. destruct st; cbn in H; inversion H; subst; try done; cbn in Hc; done. Qed.
+Print Assumptions cl_claim_row.
+Print Assumptions gen_claim_cond.
